@@ -96,6 +96,7 @@ type HeapViewDecl struct {
 type PkgContracts struct {
 	HeapViews []*HeapViewDecl
 	SumFields []string // "Type.Field"
+	UFuns     []*Ghost // uninterpreted spec functions: ufun NAME(a T, ...) R
 	Pkg    string
 	File   string
 	Funcs  map[string]*FuncContract
@@ -103,7 +104,7 @@ type PkgContracts struct {
 	Lemmas []*Lemma
 }
 
-var kwRe = regexp.MustCompile(`^(heapview\b|sumfield\b|requires\b|ensures\b|invariant\b|decreases\b|modifies\b|assert\b|loop \d|result is\b|inline$|trusted$|safety\b|param [A-Za-z_]|func\b|ghost\b|pred\b|axiom\b|lemma\b|nopanic$)`)
+var kwRe = regexp.MustCompile(`^(heapview\b|sumfield\b|ufun\b|requires\b|ensures\b|invariant\b|decreases\b|modifies\b|assert\b|loop \d|result is\b|inline$|trusted$|safety\b|param [A-Za-z_]|func\b|ghost\b|pred\b|axiom\b|lemma\b|nopanic$)`)
 var tagRe = regexp.MustCompile(`^\[([^\]]*)\]`)
 
 func loadContracts(dir, pkgPath string) (*PkgContracts, error) {
@@ -194,6 +195,14 @@ func loadContracts(dir, pkgPath string) (*PkgContracts, error) {
 				return nil, fail(err)
 			}
 			pc.HeapViews = append(pc.HeapViews, &HeapViewDecl{Recv: strings.TrimSpace(recv), E: e, Src: rest})
+			cur, curLoop = nil, nil
+		case "ufun":
+			g, err := parseGhost(rest+" = true", false)
+			if err != nil {
+				return nil, fail(err)
+			}
+			g.Body = nil
+			pc.UFuns = append(pc.UFuns, g)
 			cur, curLoop = nil, nil
 		case "sumfield":
 			pc.SumFields = append(pc.SumFields, strings.TrimSpace(rest))
